@@ -5,6 +5,7 @@ import (
 	"math"
 	"math/big"
 	"sort"
+	"sync/atomic"
 
 	"pipelined.dev/signal"
 	"verifharness/core"
@@ -21,6 +22,13 @@ type scanner struct {
 	rev, tmp []uint64
 	// panicked holds the message of the first conversion call that panicked
 	panicked string
+}
+
+// scanPartial counts the conversions whose operands ended in a partly filled frame.
+var scanPartial int64
+
+func flushScanObs(c *core.Ctx) {
+	c.Obs("conversions_on_operands_ending_in_a_partial_frame", atomic.SwapInt64(&scanPartial, 0))
 }
 
 const chunkN = 1 << 14
@@ -76,6 +84,20 @@ func (s *scanner) conv(in []uint64) []uint64 {
 	src, dst := s.src, s.dst
 	if frames := (n + s.ch - 1) / s.ch; frames < s.src.Length() {
 		src, dst = s.src.Slice(0, frames), s.dst.Slice(0, frames)
+	}
+	if rem := n % s.ch; rem != 0 {
+		// the samples end in the middle of a frame: both operands get exactly
+		// n samples (whole frames by Slice, the rest appended one by one)
+		src, dst = s.src.Slice(0, n/s.ch), s.dst.Slice(0, n/s.ch)
+		if p, msg := core.Guard(func() {
+			for i := 0; i < rem; i++ {
+				src.AppendSample(s.cv.S.FromInt(0))
+				dst.AppendSample(s.cv.D.FromInt(0))
+			}
+		}); p && s.panicked == "" {
+			s.panicked = msg
+		}
+		atomic.AddInt64(&scanPartial, 1)
 	}
 	s.cv.S.Fill(src, in)
 	if p, msg := core.Guard(func() { s.cv.Call(src, dst) }); p && s.panicked == "" {
